@@ -522,6 +522,19 @@ def verify_link_signature_thresholds(layout, steps_metadata):
                 LOG.info("Skipping link. %s", e)
                 continue
 
+            # A link only counts as evidence for the step it was recorded for,
+            # i.e. the step name in the signed content must match the step
+            payload = link.get_payload()
+            if payload.type_ == "link" and payload.name != step.name:
+                LOG.info(
+                    "Skipping link. Link for step '%s' with keyid '%s' was"
+                    " recorded for step '%s'",
+                    step.name,
+                    link_keyid,
+                    payload.name,
+                )
+                continue
+
             # Warn if there are links signed by different subkeys of same main key
             if verification_key["keyid"] in used_main_keyids:
                 LOG.warning(
